@@ -91,5 +91,35 @@ func headerEndToEnd(ctx *RunCtx) error {
 			ctx.addTVViolation(pr.p, nil, "header/before-definitions", "prelude import after a definition", tr, nil)
 		}
 	}
+	// several packages in ONE invocation that reach the disk FFI only through a shared library:
+	// every one of them needs the FFI prelude, whatever was searched for the others
+	shared := []*tv.Package{
+		{Name: "shdep", Files: map[string]string{"shdep.go": "package shdep\n\nimport \"github.com/goose-lang/goose/machine/disk\"\n\nfunc First() disk.Block {\n\treturn disk.Read(0)\n}\n"}},
+		{Name: "shmid", Files: map[string]string{"shmid.go": "package shmid\n\nimport \"example.com/tvmod/shdep\"\n\nfunc Len() uint64 {\n\treturn uint64(len(shdep.First()))\n}\n"}},
+		{Name: "sha", Files: map[string]string{"sha.go": "package sha\n\nimport \"example.com/tvmod/shmid\"\n\nfunc A() uint64 {\n\treturn shmid.Len()\n}\n"}},
+		{Name: "shb", Files: map[string]string{"shb.go": "package shb\n\nimport \"example.com/tvmod/shmid\"\n\nfunc B() uint64 {\n\treturn shmid.Len() + 1\n}\n"}},
+		{Name: "shplain", Files: map[string]string{"shplain.go": "package shplain\n\nfunc P() uint64 {\n\treturn 1\n}\n"}},
+	}
+	for _, p := range shared {
+		if err := d.WritePackage(p); err != nil {
+			return err
+		}
+	}
+	for _, cfg := range [][]string{{"sha", "shb", "shplain"}, {"shplain", "shb", "sha", "shmid"}, {"shmid", "shdep", "sha"}} {
+		outs, code, stderr := d.TranslateSet(cfg)
+		if code != 0 {
+			ctx.addTVViolation(shared[0], nil, "header/translated", fmt.Sprintf("goose exit %d on {%s}: %s", code, strings.Join(cfg, ","), firstLines(stderr, 3)), nil, nil)
+			continue
+		}
+		for _, n := range cfg {
+			hasFfi := strings.Contains(outs[n], "From Perennial.goose_lang Require Import ffi.disk_prelude.")
+			hasGeneric := strings.Contains(outs[n], "Section code.")
+			wantFfi := n != "shplain"
+			if hasFfi != wantFfi || hasGeneric == wantFfi {
+				ctx.addTVViolation(shared[0], nil, "header/ffi-exactly-the-one-used", fmt.Sprintf("%s.v translated together with {%s}: disk prelude %v, generic section %v", n, strings.Join(cfg, ","), hasFfi, hasGeneric), nil, nil)
+			}
+		}
+	}
+	ctx.Extra["end_to_end_goose_runs"] = len(progs) + 3
 	return nil
 }
